@@ -22,7 +22,19 @@ O: recursive type census of every real result (exact types: a FrozenDict, a tupl
 under convertTuplesToLists, an iterator, a view anywhere is a failure), round-trip
 equality of `$` on JSON-like documents against an independent canonical form, and
 every exception that escapes finalisation of a successfully evaluated expression
-(recorded class F8 -> KNOWN-FINDING, anything else -> VIOLATION)."""
+(recorded class F8 -> KNOWN-FINDING, anything else -> VIOLATION).
+
+O also runs HISTORIES, because "'#finalize' is applied to every statement result"
+is a statement about every evaluation, not about the first one:
+  statement reuse  one parsed Statement object evaluated along a sequence of contexts
+                   (fresh yaql.create_context(), children of one, a bare contexts.Context(),
+                   a hand-registered sandbox context without '#finalize', a context with a
+                   custom finalizer), with changing data; at EVERY step the reused statement
+                   must be observationally equal to a freshly parsed one on the same kind of
+                   context, and on standard contexts the result gets the census / round trip;
+  engine lifecycle engines with different output options created (factory.create,
+                   engine.copy), used and dropped in sequence, several alive at once; every
+                   result is judged against the options of the engine that evaluated it."""
 import collections
 import collections.abc
 import itertools
@@ -34,8 +46,18 @@ import traceback
 import gal
 import yaql
 from yaql import yaql_interface
+from yaql.language import contexts
+from yaql.language import conventions
+from yaql.language import specs
 from yaql.language import utils
+from yaql.standard_library import boolean as std_boolean
+from yaql.standard_library import branching as std_branching
+from yaql.standard_library import collections as std_collections
+from yaql.standard_library import common as std_common
+from yaql.standard_library import math as std_math
 from yaql.standard_library import queries
+from yaql.standard_library import strings as std_strings
+from yaql.standard_library import system as std_system
 
 GEN = []
 RULE = ("value trees of depth <= 4 with every constructor of the model (14 kinds; iterators in 5 Python flavours, "
@@ -921,6 +943,8 @@ def oracle(run, deep):
                 if bad:
                     run.fail("violation", "`$` does not give the JSON-like document back in canonical container types", bad)
     oracle_input(run, deep)
+    oracle_histories(run, deep)
+    oracle_engines(run, deep)
     # O3: random host values of every constructor straight into the finaliser
     for _ in range(run.n(800, 15000) * (3 if deep else 1)):
         spec = gen_spec(rng, rng.choice([1, 2, 3, 4]))
@@ -980,6 +1004,231 @@ def check_result(run, origin, path, t2l, s2l, tin, obs, exc, res):
 
 
 # --------------------------------------------------------------------------
+# histories: statement reuse across contexts, engines created and dropped in sequence
+# --------------------------------------------------------------------------
+CTX_KINDS = ["std", "std_child", "std_grandchild", "bare", "sandbox", "custom_fin"]
+STD_KINDS = ("std", "std_child", "std_grandchild")
+
+
+@specs.name("#finalize")
+def _tagging_finalizer(obj):
+    return ["custom-finalizer", type(obj).__name__]
+
+
+def make_ctx(kind):
+    if kind == "std":
+        return yaql.create_context()
+    if kind == "std_child":
+        return ctx()
+    if kind == "std_grandchild":
+        return ctx().create_child_context()
+    if kind == "bare":                      # a host's own context: no library, no '#finalize'
+        return contexts.Context()
+    if kind == "sandbox":                   # library registered by hand, still no '#finalize'
+        c = contexts.Context(convention=conventions.CamelCaseConvention())
+        std_system.register_fallbacks(c)
+        c = c.create_child_context()
+        std_system.register(c, False)
+        std_common.register(c)
+        std_boolean.register(c)
+        std_strings.register(c)
+        std_math.register(c)
+        std_collections.register(c, False)
+        queries.register(c, True)
+        std_branching.register(c)
+        return c
+    if kind == "custom_fin":
+        return yaql.create_context(finalizer=_tagging_finalizer)
+    raise ValueError(kind)
+
+
+def canon_tree(tr):
+    """set elements in a fixed order, so that two observations can be compared with =="""
+    if not isinstance(tr, tuple):
+        return tr
+    k = tr[0]
+    if k in SCALARS:
+        return tr
+    if k == "VView":
+        return (k, tr[1], [(canon_tree(a), canon_tree(b)) for a, b in tr[2]])
+    if k in ("VFDict", "VDict"):
+        return (k, [(canon_tree(a), canon_tree(b)) for a, b in tr[1]])
+    xs = [canon_tree(x) for x in tr[1]]
+    if k in ("VSet", "VFSet"):
+        xs = sorted(xs, key=repr)
+    return (k, xs)
+
+
+def canon_obs(o):
+    return ("val", canon_tree(o[1])) if o[0] == "val" else tuple(o)
+
+
+HIST_DOC = ["dict", [[["str", "a"], ["list", [["int", 1], ["tuple", [["int", 2], ["int", 3]]], ["set", [["int", 4]]]]]],
+                     [["str", "b"], ["dict", [[["str", "c"], ["null"]], [["str", "d"], ["iter", "gen", []]]]]],
+                     [["str", "s"], ["set", [["int", 1], ["int", 2]]]]]]
+HIST_DOC2 = ["dict", [[["str", "a"], ["tuple", [["str", "x"]]]], [["str", "b"], ["dict", []]], [["str", "s"], ["set", []]]]]
+HIST_EXPRS = ["$", "$.a", "$.b", "[$.s, $.a]", "set(1, 2)", "dict(a => set(1, 2), b => [1, 2])", "[1, 2].select([$, set($)])",
+              "dict(a => 1).items()", "dict(a => 1).keys()", "{a=>[1]}.values()", "[3, 1, 2].orderBy($)",
+              "[1, 2, 3].where($ > 1)", "[[1, 2]]", "{a=>{b=>set(1)}}", "[1,2].toSet()", "$.b.items()"]
+FIXED_HISTORIES = [["bare"], ["sandbox"], ["custom_fin"], ["std"], ["std_child"], ["bare", "std_child"], ["std", "bare"],
+                   ["sandbox", "std", "bare"], ["custom_fin", "bare"], ["bare", "custom_fin"]]
+FINALS = ["std", "std_child", "bare"]
+
+_fresh_memo = {}
+
+
+def fresh_obs(expr, data, t2l, s2l, kind):
+    """what a freshly parsed statement gives on a context of this kind (deterministic: memoised)"""
+    key = (expr, json.dumps(data), t2l, s2l, kind)
+    if key not in _fresh_memo:
+        e = eng_for(t2l, s2l)
+        kw = {"data": build(data, {})} if data is not None else {}
+        _fresh_memo[key] = canon_obs(observe(lambda: e(expr).evaluate(context=make_ctx(kind), **kw))[0])
+    return _fresh_memo[key]
+
+
+def history_check(run, expr, datas, t2l, s2l, steps):
+    """One Statement object along `steps` (context kinds); datas[i % len] is the data of step i.
+    Returns the failure data of the first step at which the property fails, or None."""
+    e = eng_for(t2l, s2l)
+    stmt = e(expr)
+    base = {"kind": "history", "origin": {"expr": expr, "datas": datas}, "steps": list(steps),
+            "options": {"convertTuplesToLists": t2l, "convertSetsToLists": s2l}}
+    for i, kind in enumerate(steps):
+        data = datas[i % len(datas)]
+        kw = {"data": build(data, {})} if data is not None else {}
+        obs, exc, res = observe(lambda: stmt.evaluate(context=make_ctx(kind), **kw))
+        if run is not None:
+            run.cov["evaluations"] += 1
+            run.count("O:history-step-%s-%s" % (kind, obs[0]))
+        want = fresh_obs(expr, data, t2l, s2l, kind)
+        if kind in STD_KINDS and obs[0] == "val":
+            bad = census(res, t2l, s2l)
+            if bad:
+                return ("result of finalisation is not plain data: it contains a %s" % bad[0][1],
+                        dict(base, failing_step=i, context_kind=kind, offending_nodes=bad[:10], result=repr(res)[:600],
+                             fresh_statement_gives=repr(want)[:600],
+                             required="a statement evaluated on a standard context returns finalised plain data whatever "
+                                      "it was evaluated on before"))
+        if canon_obs(obs) != want:
+            return ("a reused Statement object does not behave like a freshly parsed one",
+                    dict(base, failing_step=i, context_kind=kind, observed=repr(canon_obs(obs))[:800],
+                         fresh_statement_gives=repr(want)[:800],
+                         trace="".join(traceback.format_exception(type(exc), exc, exc.__traceback__))[-1200:] if exc else None,
+                         required="the result of statement.evaluate depends on the context, the data and the engine "
+                                  "options only, not on earlier evaluations of the same statement object"))
+    return None
+
+
+def oracle_histories(run, deep):
+    rng = run.rng
+    todo = []
+    for (t2l, s2l) in OPTS:
+        for expr in HIST_EXPRS:
+            for pre in (FIXED_HISTORIES if expr in HIST_EXPRS[:8] or deep else FIXED_HISTORIES[:3]):
+                for fin in FINALS[:2] if pre[-1] != "bare" else FINALS[:1]:
+                    todo.append((expr, [HIST_DOC], t2l, s2l, pre + [fin]))
+            todo.append((expr, [HIST_DOC, HIST_DOC2], t2l, s2l, ["std_child", "std_child", "bare", "std_child", "std"]))
+    for _ in range(run.n(150, 3000) * (3 if deep else 1)):
+        expr = rng.choice(HIST_EXPRS) if rng.random() < 0.4 else gen_expr(rng, rng.choice([1, 2, 2, 3]))
+        datas = [gen_spec(rng, 2, idfree=True) for _ in range(rng.choice([1, 1, 2]))] if rng.random() < 0.6 else [HIST_DOC, HIST_DOC2]
+        steps = [rng.choice(CTX_KINDS if rng.random() < 0.8 else ["std_child", "bare"]) for _ in range(rng.randrange(1, 5))]
+        steps.append(rng.choice(["std", "std_child", "std_child", "std_grandchild", "bare", "sandbox"]))
+        t2l, s2l = rng.choice(OPTS)
+        todo.append((expr, datas, t2l, s2l, steps))
+    reported = 0
+    for expr, datas, t2l, s2l, steps in todo:
+        bad = history_check(run, expr, datas, t2l, s2l, steps)
+        run.count("O:history-" + ("ok" if bad is None else "FAIL"))
+        if bad and reported < 40:
+            reported += 1
+            if reported == 1:
+                bad = (bad[0], shrink_history(bad[1]) or bad[1])
+            run.fail("violation", bad[0], bad[1])
+
+
+def shrink_history(d):
+    """drop steps while the history still fails"""
+    o = d["options"]
+    t2l, s2l = o["convertTuplesToLists"], o["convertSetsToLists"]
+    steps, best = list(d["steps"][:d["failing_step"] + 1]), None
+    datas = d["origin"]["datas"]
+    if len(datas) > 1:
+        return None          # the data of a step depends on its index
+    i = 0
+    while i < len(steps) - 1:
+        cand = steps[:i] + steps[i + 1:]
+        _fresh_memo.clear()
+        r = history_check(None, d["origin"]["expr"], datas, t2l, s2l, cand)
+        if r:
+            steps, best = cand, r[1]
+        else:
+            i += 1
+    return best
+
+
+LIFE_EXPRS = ["set(1, 2)", "[1, [2, 3]]", "[[1], set(2)]", "{a => [set(1), [2]]}", "$"]
+LIFE_DATA = ["list", [["set", [["int", 1]]], ["tuple", [["int", 2], ["list", [["int", 3]]]]]]]
+
+
+def engine_sequence_check(run, seq):
+    """seq: [(t2l, s2l, how)], how in create | copy | copy_of_copy.  Every engine is used and dropped
+    before the next one is made (plus one that stays alive throughout)."""
+    import gc
+    seen_ids = set()
+    keep = _factory.create(options={"yaql.convertTuplesToLists": False, "yaql.convertSetsToLists": True})
+    base = _factory.create()
+    for n, (t2l, s2l, how) in enumerate(seq):
+        o = {"yaql.convertTuplesToLists": t2l, "yaql.convertSetsToLists": s2l}
+        if how == "create":
+            e = _factory.create(options=o)
+        elif how == "copy":
+            e = base.copy(o)
+        else:
+            e = base.copy({"yaql.convertTuplesToLists": not t2l}).copy(o)
+        if run is not None and id(e) in seen_ids:
+            run.count("O:engine-address-reused")
+        seen_ids.add(id(e))
+        for who, eng, (a, b) in (("new", e, (t2l, s2l)), ("kept-alive", keep, (False, True))):
+            for expr in LIFE_EXPRS:
+                obs, exc, res = observe(lambda: eng(expr).evaluate(data=build(LIFE_DATA, {}), context=ctx()))
+                if run is not None:
+                    run.cov["evaluations"] += 1
+                    run.count("O:engine-lifecycle-" + obs[0])
+                want = fresh_obs(expr, LIFE_DATA, a, b, "std_child")
+                bad = census(res, a, b) if obs[0] == "val" else []
+                if bad or canon_obs(obs) != want:
+                    return ("an engine finalises with output options that are not its own"
+                            if not bad else "result of finalisation is not plain data: it contains a %s" % bad[0][1],
+                            {"kind": "engines", "sequence": [list(x) for x in seq[:n + 1]], "which_engine": who,
+                             "origin": {"expr": expr, "data": LIFE_DATA},
+                             "options": {"convertTuplesToLists": a, "convertSetsToLists": b},
+                             "observed": repr(canon_obs(obs))[:600], "long_lived_engine_with_same_options_gives": repr(want)[:600],
+                             "offending_nodes": bad[:10],
+                             "required": "results follow the options of the engine that evaluated the statement, however many "
+                                         "engines were created and dropped before"})
+        del e
+        if how == "create":
+            gc.collect()
+    return None
+
+
+def oracle_engines(run, deep):
+    rng = run.rng
+    for r in range(run.n(3, 40) * (3 if deep else 1)):
+        seq, prev = [], None
+        for _ in range(24):
+            o = rng.choice([x for x in OPTS if x != prev])
+            prev = o
+            seq.append((o[0], o[1], rng.choice(["copy", "copy", "copy", "copy_of_copy", "copy_of_copy", "create"] if r else ["copy"])))
+        bad = engine_sequence_check(run, seq)
+        run.count("O:engine-sequence-" + ("ok" if bad is None else "FAIL"))
+        if bad:
+            run.fail("violation", bad[0], bad[1])
+            return
+
+
+# --------------------------------------------------------------------------
 # known findings, corpus, replay
 # --------------------------------------------------------------------------
 def classify(failure, known_entries):
@@ -1009,7 +1258,16 @@ def load_corpus():
 def replay(run, data):
     d = data["data"]
     o = d["options"]
+    if isinstance(o, list):              # per-expression-options comparison
+        t2l, s2l = o
+        a = eval_expr(d["expr"], d.get("data"), t2l, s2l)[0]
+        b = eval_expr(d["expr"], d.get("data"), t2l, s2l, per_expression_options=d["per_expression_options"])[0]
+        return canon_obs(a) == canon_obs(b)
     t2l, s2l = o["convertTuplesToLists"], o["convertSetsToLists"]
+    if d.get("kind") == "history":
+        return history_check(None, d["origin"]["expr"], d["origin"]["datas"], t2l, s2l, d["steps"]) is None
+    if d.get("kind") == "engines":
+        return engine_sequence_check(None, [tuple(x) for x in d["sequence"]]) is None
     if d.get("kind") == "roundtrip":
         return roundtrip_check(d["origin"]["spec"], d["path"], t2l, s2l) is None
     origin = d["origin"]
